@@ -71,6 +71,56 @@ def evaluate_reused(text, asgs):
     return out
 
 
+def evaluate_twin(text, asg1, asg2):
+    """the SAME formula text in Z1 of two sheets that hold different truth assignments; one evaluate() of a cell on a third
+    sheet reaches both: -> [(value of Sheet1!Z1, value of Sheet2!Z1)], spy log"""
+    L = xl.lib()
+    cells = {}
+    for sh, asg in (('Sheet1', asg1), ('Sheet2', asg2)):
+        for a, v in zip(CELLS, asg):
+            if v['t'] != 'blank':
+                cells[sh + a[6:]] = ('value', xl.from_abs(v, 'native'))
+    log = []
+
+    def SPY(k):
+        log.append(int(k))
+        return k
+
+    def fn():
+        try:
+            model, ev = xl.build_model(cells, {'Sheet1!Z1': text, 'Sheet2!Z1': text, 'Sheet3!C1': '=COUNTA(Sheet1!Z1,Sheet2!Z1)'})
+            ev.namespace['SPY'] = SPY
+            ev.evaluate('Sheet3!C1')
+            return {'abs': [xl.to_abs(ev.get_cell_value('Sheet1!Z1')), xl.to_abs(ev.get_cell_value('Sheet2!Z1'))]}
+        except BaseException as e:      # noqa
+            if isinstance(e, (KeyboardInterrupt, SystemExit, sandbox._Timeout)):
+                raise
+            return {'abs': None, 'exc': type(e).__name__ + ': ' + str(e)[:120]}
+    r = sandbox.run_timed(fn, wall_s=10)
+    return r.get('abs'), list(log), r.get('exc') or r.get('outcome')
+
+
+def twin_worker(groups):
+    out = {'n': 0, 'dis': []}
+    for text, items in groups:
+        usable = [(g, outs, kind) for g, outs, kind in items
+                  if all(o['v']['t'] not in ('open', 'pyexc') for o in outs)]
+        for (g1, outs1, kind), (g2, outs2, _) in zip(usable, usable[1:] + usable[:1]):
+            if g1 == g2:
+                continue
+            vals, log, exc = evaluate_twin(text, ASSIGN[g1 - 1], ASSIGN[g2 - 1])
+            out['n'] += 1
+            ok = vals is not None and any(agrees(vals[0], o1['v']) is True and agrees(vals[1], o2['v']) is True and list(o1['log']) + list(o2['log']) == log
+                                          for o1 in outs1 for o2 in outs2)
+            if not ok:
+                out['dis'].append({'case': {'formula': text, 'kind': kind, 'Sheet1_cells': ASSIGN[g1 - 1], 'Sheet2_cells': ASSIGN[g2 - 1],
+                                            'evaluated': '=COUNTA(Sheet1!Z1,Sheet2!Z1) on Sheet3, the same formula text in Z1 of both sheets'},
+                                   'exp': {'Sheet1!Z1': outs1, 'Sheet2!Z1': outs2},
+                                   'obs': {'values': vals, 'spy_log': log, 'exception': exc},
+                                   'features': {'kind': kind, 'clause': 'same-text-on-two-sheets', 'fn': text[1:text.index('(')]}})
+    return out
+
+
 def reuse_worker(groups):
     out = {'n': 0, 'dis': []}
     for text, items in groups:
@@ -156,6 +206,7 @@ ASSIGN = [
     [{'t': 'num', 'n': 1, 'd': 1}, {'t': 'num', 'n': 0, 'd': 1}, {'t': 'bool', 'v': True}, {'t': 'blank'}],
     [{'t': 'blank'}, {'t': 'num', 'n': -1, 'd': 1}, {'t': 'bool', 'v': False}, {'t': 'bool', 'v': True}],
     [{'t': 'bool', 'v': True}, {'t': 'err', 'v': '#N/A'}, {'t': 'num', 'n': 1, 'd': 1}, {'t': 'bool', 'v': True}],
+    [{'t': 'float', 'v': '1e-16'}, {'t': 'float', 'v': '-3e-17'}, {'t': 'float', 'v': '4e-300'}, {'t': 'num', 'n': 0, 'd': 1}],
 ]
 
 BUG_MODELS = {}
@@ -191,6 +242,15 @@ def run(run):
             run.disagree('logic', d['case'], d['exp'], d['obs'], d['features'], clause='reused-model')
     run.evaluations += nre
     run.notes['reused_model_evaluations'] = nre
+    # the same formula text on two sheets with different truth assignments, both reached by ONE evaluation
+    ntw = 0
+    tw = [(t, v) for t, v in glist if not any(k in ('if-poison', 'nested') for _, _, k in v)]
+    for res in pool.pmap(twin_worker, tw):
+        ntw += res['n']
+        for d in res['dis']:
+            run.disagree('logic', d['case'], d['exp'], d['obs'], d['features'], clause='same-text-on-two-sheets')
+    run.evaluations += 2 * ntw
+    run.notes['twin_sheet_evaluations'] = ntw
     # evaluation orders within one process: fewest arguments first, most arguments first, and two seeded shuffles
     allc = []
     for b in blocks:
